@@ -144,6 +144,7 @@ int main(int argc, char **argv) {
   c.encode = [](const Spec &s) { return encode(s); };
   c.decode = [](const std::string &s) { return decode(s); };
   c.eval = eval;
+  c.primers = legalizationPrimers();
   c.instanceTimeout = 20;
   c.deadline = gThorough ? 3000 : 400;
   return vf::runCheck(o, c);
